@@ -202,6 +202,18 @@ def run_shard(spec, R):
                             darsia.FVMass(g, mode)
                         except Exception:
                             pass
+                    # ... and the matrix-free helpers are applied with scalar, vector and tensor cell data
+                    dg = len(shape)
+                    for qshape in (tuple(shape), tuple(shape) + (dg,), tuple(shape) + (dg, dg)):
+                        for mode in ("arithmetic", "harmonic"):
+                            try:
+                                darsia.cell_to_face_average(g, rng.random(qshape) + 0.1, mode)
+                            except Exception:
+                                pass
+                    try:
+                        darsia.face_to_cell(g, rng.random(int(g.num_faces)), pt=np.full(dg, 0.5))
+                    except Exception:
+                        pass
                     src[0] = "direct:after_use"
                     judge_grid(R, g, "direct:after_use")
                     src[0] = f"direct:{kind}"
